@@ -24,10 +24,14 @@ package ljh
 // w.writer.acc is the byte sequence accepted so far (see asyncbufio/verif_contracts.go).
 // ---------------------------------------------------------------------------------------------
 
+// subframe count stored with a record (doc/LJH.md): framecount*SubframeDivisions + SubframeOffset
+//@ define sfc(f int, sd int, so int) int := f * sd + so
+
 // LJH 2.2 record (doc/LJH.md, "Binary Information"): 8 bytes subframe count, 8 bytes timestamp
 // (microseconds), then the samples as little-endian uint16.
 //@ func (*Writer).WriteRecord
 //@   props C05 C07
+//@   uses sfc
 //@   requires w.writer != nil && allocated(w.writer) && WInv(w.writer)
 //@   ensures wronglen: len(data) != w.Samples ==> result != nil
 //@   ensures rejected: result != nil ==> w.writer.n == old(w.writer.n) && w.RecordsWritten == old(w.RecordsWritten)
@@ -35,7 +39,7 @@ package ljh
 //@   ensures inv: WInv(w.writer) && (forall j int :: {w.writer.mark[j]} j <= old(w.writer.items) ==> w.writer.mark[j] == old(w.writer.mark[j]))
 //@   ensures item: (result == nil ==> w.writer.items == old(w.writer.items) + 1) && (result != nil ==> w.writer.items == old(w.writer.items))
 //@   ensures whole: result == nil ==> w.writer.n == old(w.writer.n) + 16 + 2 * len(data) && w.RecordsWritten == old(w.RecordsWritten) + 1 && len(data) == w.Samples
-//@   ensures count: result == nil ==> (forall i int :: {w.writer.acc[i]} old(w.writer.n) <= i && i < old(w.writer.n) + 8 ==> w.writer.acc[i] == lebyte(framecount * w.SubframeDivisions + w.SubframeOffset, i - old(w.writer.n)))
+//@   ensures count: result == nil ==> (forall i int :: {w.writer.acc[i]} old(w.writer.n) <= i && i < old(w.writer.n) + 8 ==> w.writer.acc[i] == lebyte(sfc(framecount, w.SubframeDivisions, w.SubframeOffset), i - old(w.writer.n)))
 //@   ensures stamp: result == nil ==> (forall i int :: {w.writer.acc[i]} old(w.writer.n) + 8 <= i && i < old(w.writer.n) + 16 ==> w.writer.acc[i] == lebyte(timestamp, i - old(w.writer.n) - 8))
 //@   ensures samples: result == nil ==> (forall i int :: {w.writer.acc[i]} old(w.writer.n) + 16 <= i && i < w.writer.n ==> w.writer.acc[i] == lebyte(old(at(data, data.off + (i - w.writer.n - 16) / 2)), (i - old(w.writer.n) - 16) % 2))
 //@   ensures roomy: !QueueFull() && len(data) == w.Samples ==> result == nil
